@@ -59,7 +59,8 @@ def latch(ck, F, E):
     ws = E.writers_of_field("abasic_web::JsInterpreter", "latest_error")
     names = sorted(ws)
     allowed = ("JsInterpreter::start_evaluating", "JsInterpreter::continue_evaluating", "JsInterpreter::take_latest_error")
-    ck.require(bool(names) and all(any(sfx(n, a) for a in allowed) for n in names), "C19:LATCH:writers", "latch discipline",
+    from lib import allowed_via_callers
+    ck.require(bool(names) and all(allowed_via_callers(F, n, allowed) for n in names), "C19:LATCH:writers", "latch discipline",
                "latest_error is written only by %s" % [n.split("::")[-1] for n in names],
                "latest_error is written in %s" % names)
     for fn in ("JsInterpreter::start_evaluating", "JsInterpreter::continue_evaluating"):
@@ -68,12 +69,24 @@ def latch(ck, F, E):
             ck.missing("C19:LATCH:%s" % fn, fn)
             continue
         ok = False
+        # helpers of the adapter that latch an error on every path (`fn set_latest_error(..) { ..; self.latest_error = Some(..) }`)
+        setters = set()
+        for hb in F.bodies.values():
+            if hb.crate != "abasic_web" or hb.path == b.path:
+                continue
+            pd = hb.postdominators().get(0, set()) | {0}
+            for bb3, i3, pl3, rv3, sp3 in hb.assigns():
+                fs3 = [p for p in pl3["proj"] if p["k"] == "field"]
+                if fs3 and fs3[-1].get("name") == "latest_error" and bb3 in pd:
+                    e3 = hb.rv_expr(rv3)
+                    if e3[0] == "agg" and e3[2] == "Some":
+                        setters.add(hb.path)
         for (bb, subject, targets, otherwise, names_) in switch_arms_on(b, lambda s, n: n and set(n.values()) == {"Ok", "Err"}):
             et = arm_target(targets, otherwise, names_, "Err")
             ot = arm_target(targets, otherwise, names_, "Ok")
             ereg, oreg = exclusive_region(b, et), exclusive_region(b, ot)
-            sets_err = False
-            sets_ok = False
+            sets_err = any(c.callee in setters and c.bb in ereg for c in b.calls())
+            sets_ok = any(c.callee in setters and c.bb in oreg for c in b.calls())
             for bb2, i, pl, rv, sp in b.assigns():
                 fs = [p for p in pl["proj"] if p["k"] == "field"]
                 if fs and fs[-1].get("name") == "latest_error":
@@ -222,9 +235,13 @@ def line_forwarding(ck, F):
                "JsInterpreter::start_evaluating does not pass the submitted line to the core as given (%s): lines whose "
                "exact text matters (REM / string / DATA text, trailing characters the core rejects) behave differently "
                "from the core" % why, b.span)
-    gl = [c for c in b.calls() if c.callee.endswith("get_line_with_pointer_caret")]
+    from lib import calls_through
+    gl = calls_through(F, b, "get_line_with_pointer_caret")
     ok2 = bool(gl)
     for c in gl:
+        if len(c.args) < 3 or c.args[2] is None:
+            ok2 = False
+            continue
         e = b.expr(c.args[2])
         foreign = [x[1].split("::")[-1] for x in expr_calls(e) if x[1].split("::")[-1] not in ("as_ref", "deref", "as_str", "borrow", "clone")]
         if foreign or expr_params(e) != {1}:
@@ -242,7 +259,15 @@ def error_arms(ck, F):
         for (bb, subject, targets, otherwise, names_) in switch_arms_on(b, lambda s, n: n and set(n.values()) == {"Ok", "Err"}):
             et = arm_target(targets, otherwise, names_, "Err")
             reg = exclusive_region(b, et)
-            names = [c.callee.split("::")[-1] for c in b.calls() if c.bb in reg]
+            from lib import deep_calls
+            names = []
+            for c in b.calls():
+                if c.bb not in reg:
+                    continue
+                names.append(c.callee.split("::")[-1])
+                hb = F.bodies.get(c.callee)
+                if hb is not None and hb.crate == "abasic_web":      # an adapter helper called on the error arm: look inside
+                    names += [c2.callee.split("::")[-1] for (_o, c2) in deep_calls(F, hb, lambda p: p in F.bodies and F.bodies[p].crate == "abasic_web")]
             sigs[fn] = [n for n in names if n in ("to_string", "get_line_with_pointer_caret", "join", "extend")]
     a = sigs.get("JsInterpreter::start_evaluating")
     c = sigs.get("JsInterpreter::continue_evaluating")
